@@ -344,8 +344,7 @@ def shapes(tier):
            try_into_shape("c11_try_into_shared_tuples", TRYINTO_VARIANTS),
            try_into_shape("c11_try_into_small", TRYINTO_SMALL, quick=False),
            generic_shape()]
-    if tier == "quick":
-        out = [s for s in out if s.quick]
+    # the whole grid costs ~20 s: quick and thorough run all of it
     return out
 
 
